@@ -1,7 +1,7 @@
 (* C15, part 2 of the joined evaluator: collector expressions whose operands
    select scalars (SpecC15kw.kc_guard).  Under the guard the collector handlers
    of processor.py never reach one of their raising sites: nothing is
-   flattened, `del` is never issued (no Mut), .items()/`in` on a scalar are not
+   flattened, no hash is reduced, .items()/`in` on a scalar are not
    evaluated -- and what a collector yields is one Python list, which the
    operator segments that follow hand through unchanged. *)
 From Coq Require Import List Ascii String ZArith NArith Bool Arith Lia.
@@ -63,11 +63,11 @@ Proof.
   apply IH. unfold leafP, leaf_item in *. cbn [unw] in *. exact H.
 Qed.
 
-Lemma sub_scan_leaf rems : forall lhs updated dels,
+Lemma sub_scan_leaf rems : forall lhs updated,
   Forall leafP lhs -> Forall leafP updated ->
-  exists upd, sub_scan rems lhs updated dels = Ok (upd, dels) /\ Forall leafP upd.
+  exists upd, sub_scan rems lhs updated = Ok upd /\ Forall leafP upd.
 Proof.
-  induction lhs as [|l rest IH]; intros updated dels Hl Hu; cbn [sub_scan]; [eauto|].
+  induction lhs as [|l rest IH]; intros updated Hl Hu; cbn [sub_scan]; [eauto|].
   inversion Hl as [|? ? Hx Hr]; subst.
   destruct (leaf_unw _ Hx) as (i & v & E).
   destruct l as [n|ll|nd par rf path anc]; try discriminate Hx.
@@ -82,7 +82,7 @@ Lemma subtraction_leaf rems lhs :
   Forall leafP lhs -> exists upd, subtraction rems lhs = (upd, Done) /\ Forall leafP upd.
 Proof.
   intros H. unfold subtraction.
-  destruct (sub_scan_leaf rems lhs [] [] H (Forall_nil _)) as (upd & -> & Hu). eauto.
+  destruct (sub_scan_leaf rems lhs [] H (Forall_nil _)) as (upd & -> & Hu). eauto.
 Qed.
 
 (* ---- the collector handler under the guard ---- *)
